@@ -253,6 +253,22 @@ def run(prop, tier, replay):
             elif r["a"] == "DbgIo" and (r["cycleErrors"] or r["nextCycleErrors"]):
                 rep.violation(f"dbgwrite:io:cycle-fault:{r['address']}", {"dbgwrite": True, "event": r},
                               f"control request {r['via']} {r['address']} := '{r['text']}': the next cycle fails with {r['cycleErrors'] or r['nextCycleErrors']}")
+    mesh_rows = []
+    if prop == "C03" and not replay:
+        # values that arrive over the mesh (a peer publishes; [runtime.mesh.subscribe] of a real runtime.toml maps them to globals)
+        mwf = work / "meshwrite.ndjson"
+        tpv(["meshwrite-run", "--out", mwf], timeout=1800)
+        mesh_rows = read_ndjson(mwf)
+        if sum(1 for r in mesh_rows if r["started"] and r["running"]) < 30:
+            raise ToolError("mesh-write stage: fewer than 30 cases in which the mesh started and the resource kept running")
+        if sum(1 for r in mesh_rows if r["xAfter"] not in ("DInt(0)", "Real(0.0)", "Int(0)", "USInt(0)", "Bool(false)", "Word(0)", "LInt(0)")) < 10:
+            raise ToolError("mesh-write stage: fewer than 10 published values arrived in a global (nothing judged)")
+        for r in mesh_rows:
+            for v in ("x", "y"):
+                if r[v + "Tag"] != r[v + "Declared"]:
+                    rep.violation(f"meshwrite:tag:{r[v + 'Declared']}", {"meshwrite": True, "event": r},
+                                  f"mesh publish {json.dumps(r[v + 'Published'])} for the subscribed global {r[v]} (declared {r[v + 'Declared']}, second / third "
+                                  f"subscription after one that names an undeclared global): stored {r[v + 'After']}")
     ncyc = sum(1 for r in rows if r["a"] == "Cycle")
     outcomes = {}
     for r in rows:
@@ -263,7 +279,7 @@ def run(prop, tier, replay):
     cov = {
         "states": max(mc["distinct"], 1) + len(rows), "transitions": max(mc["generated"], 1) + len(rows),
         "traces_validated_against_impl": len(runs),
-        "programs_typed_core": len(runs), "cycles_validated": ncyc, "programs_wide_generator": len(wide_rows), "operator_matrix_cases_full_width": len(op_rows), "debugger_writes_through_control_endpoint": len(dw_rows), "feature_programs_accepted": sum(1 for r in feat_rows if r["accepted"]), "feature_families": len({r["family"] for r in feat_rows if r["accepted"]}), "stdlib_functions_called": sum(1 for r in std_rows if r["okClasses"] > 0), "stdlib_calls": sum(r["calls"] for r in std_rows),
+        "programs_typed_core": len(runs), "cycles_validated": ncyc, "programs_wide_generator": len(wide_rows), "operator_matrix_cases_full_width": len(op_rows), "debugger_writes_through_control_endpoint": len(dw_rows), "mesh_publishes_to_subscribed_globals": len(mesh_rows), "feature_programs_accepted": sum(1 for r in feat_rows if r["accepted"]), "feature_families": len({r["family"] for r in feat_rows if r["accepted"]}), "stdlib_functions_called": sum(1 for r in std_rows if r["okClasses"] > 0), "stdlib_calls": sum(r["calls"] for r in std_rows),
         "profiles": {p: sum(1 for r in runs if scripts[r[0]["script"]]["profile"] == p) for p in ("matrix", "strict", "natural", "pous", "case")},
         "outcomes": outcomes,
         "runtime_cycle_runs_tag_checked": rc_runs, "runtime_cycle_events_tag_checked": rc_events,
